@@ -34,6 +34,7 @@ def run(rep, repo, tier):
         for crit in crit_sets:
             r = lpfacts.get_run(repo, pc, stab, crit)
             check_run(rep, r, pc, stab, crit)
+            lpfacts.check_domains_fixed(rep, r, 'C01.R1', '[pc=%s stab=%s]' % (pc, stab))
             rep.count('specialisations')
     check_grouping(rep, repo)
     check_readback(rep, repo)
